@@ -214,8 +214,8 @@ def judge(t):
     else:
         wfail = set(scn.get('writer_fail', ())) | set(c.mib for c in puts if not c.ok)
         for b in sorted(B):
-            if b in F or b in wfail or b in cores:
-                continue
+            if b in F or b in wfail or b in cores or (cores and not F):
+                continue          # (with a D18 name around and no other failure known, the write decision is not judged)
             s = str(R.get(b))
             if s not in ('compiled', 'borrowed'):
                 V('C09.2-ignore-errors' if F else 'C09.3-no-failure-all-written', 'built module %s is reported %s%s' % (b, s, ' although errors are ignored' if F else ' although nothing failed'),
@@ -256,7 +256,22 @@ def _run(scn, root):
 
 def generate(rng, tier):
     scn = cs.gen_world(rng, tier, focus='C09')
-    if scn.get('borrowers') or rng.random() < 0.5:
+    grp = [(k_, v_) for k_, v_ in scn.get('files', {}).items() if len(v_) > 1]
+    if grp and rng.random() < 0.5:
+        # bias: a later module of a multi-module file fails while the module the file is named after is fine and,
+        # in half of these worlds, already up to date according to a searcher
+        k_, v_ = grp[0]
+        others = [m for m in v_ if m != k_]
+        scn['modules'][k_]['variant'] = 'ok'
+        scn['modules'][rng.choice(others)]['variant'] = rng.choice(['dupsym', 'unkparent'])
+        for s_ in scn['sources']:
+            if k_ in s_['holds']:
+                s_['holds'][k_] = {'o': 'ok'}
+        if rng.random() < 0.5:
+            scn['searchers'] = [{'flavour': rng.choice(['file', 'stub', 'realstub']), 'answers': {k_: 'fresh'}}] + scn.get('searchers', [])[:1]
+            scn['options'].pop('rebuild', None)
+        scn['borrowers'] = []
+    if scn.get('borrowers') or (rng.random() < 0.5 and not (grp and scn['borrowers'] == [])):
         # with borrowers D18 can replace a compiled module by a borrowed copy: keep those worlds single-module-per-file
         scn['files'] = {k: v for k, v in scn['files'].items() if k in scn.get('file_alias', {})}
         scn.pop('co_only', None)
